@@ -128,6 +128,8 @@ class JobResult:
                     self.probe("process_state_drift:" + key)
             elif rec[0] == "out" and rec[2] == "sim" and rec[3].startswith("lossless-"):
                 self.probe("read_monitor:" + rec[3].split()[0])
+                if rec[3].startswith("lossless-fail") and len(self.d["samples"]) < 4:
+                    self.d["samples"].append({"read_monitor": rec[3][:600], "argv": desc.get("argv")})
         self.d["steps"] += count_records(res, "sched") + count_records(res, "op")
         self.d["boundaries"] += count_records(res, "done")
 
